@@ -515,8 +515,14 @@ func c17r1(c *Ctx) {
 				c.Check("lists in map order are sorted or used order-insensitively: "+stableFnName(fn), fn.Pos(), true, "")
 			}
 		}
+		seenUse := map[string]bool{}
+		sort.SliceStable(uses, func(i, j int) bool { return uses[j].pos == token.NoPos && uses[i].pos != token.NoPos })
 		for _, u := range uses {
 			key := stableFnName(fn) + "|" + u.producer + "|" + u.use
+			if seenUse[key] {
+				continue // one obligation per (function, producer, kind of use)
+			}
+			seenUse[key] = true
 			if !armed[funcPkgPath(fn)] {
 				census = append(census, key+" @"+p.pos(u.pos))
 				continue
